@@ -231,9 +231,9 @@ pub fn shape_mutations(e: &TypeEntry, rng: &mut impl RngCore, nrandom: usize, nf
 }
 
 pub const ALLOC_SINGLE_FACTOR: usize = 16;
-pub const ALLOC_SINGLE_SLACK: usize = 64 * 1024;
+pub const ALLOC_SINGLE_SLACK: usize = 1024 * 1024;
 pub const ALLOC_PEAK_FACTOR: usize = 32;
-pub const ALLOC_PEAK_SLACK: usize = 256 * 1024;
+pub const ALLOC_PEAK_SLACK: usize = 2 * 1024 * 1024;
 
 /// Decode one input under the monitors. Returns Ok(decoded?) unless a monitor fired.
 pub fn monitored_decode(c: &mut Ctx, e: &TypeEntry, mname: &str, bytes: &[u8]) -> Option<bool> {
@@ -358,5 +358,5 @@ pub fn run(c: &mut Ctx) {
         c.inconclusive("C16: no length prefix was found in any honest encoding");
     }
     c.note("len_prefix_positions", json!(n_len_atoms));
-    c.note("allocation_bounds", json!({"largest_single": "16*len+64KiB", "peak_live": "32*len+256KiB"}));
+    c.note("allocation_bounds", json!({"largest_single": "16*len+1MiB", "peak_live": "32*len+2MiB"}));
 }
